@@ -352,7 +352,9 @@ func (r *w5Relay) run(dst net.Conn, src net.Conn) {
 			r.total += int64(k)
 			r.segs++
 			r.mu.Unlock()
-			if r.delayUs > 0 && r.rng.Chance(1, 3) {
+			// per-link delay: on a third of the larger segments, rarely on tiny ones (a byte-by-byte relay
+			// with a delay per byte would turn a 60 kB frame into a minute of transfer)
+			if r.delayUs > 0 && ((k >= 32 && r.rng.Chance(1, 3)) || r.rng.Chance(1, 400)) {
 				time.Sleep(time.Duration(r.rng.Intn(r.delayUs)+1) * time.Microsecond)
 			}
 			if _, werr := dst.Write(pend[:k]); werr != nil {
